@@ -285,6 +285,22 @@ pub fn run(ctx: &mut Ctx) -> (&'static str, String, bool) {
                         }
                         check_buffer(&m, compressed, &format!("bitflip-{}", lay.name), &mut p, &mut r);
                     }
+                    // repeated elements: one block of the frame copied over another (lists are parsed into sets / maps in
+                    // places; two equal entries never come out of the generators, nor out of a single-byte mutation)
+                    for bs in [4usize, 6, 8, 28, 40] {
+                        let mut k = 4;
+                        while k + 2 * bs <= frame.len() && k < 4 + 8 * bs {
+                            for from_next in [false, true] {
+                                let mut m = frame.clone();
+                                let (src, dst) = if from_next { (k + bs, k) } else { (k, k + bs) };
+                                let blk = m[src..src + bs].to_vec();
+                                m[dst..dst + bs].copy_from_slice(&blk);
+                                check_buffer(&m, compressed, &format!("repeated-element-{}", lay.name), &mut p, &mut r);
+                                p.distinct_extra += 1;
+                            }
+                            k += if bs % 4 == 0 { 4 } else { 2 };
+                        }
+                    }
                     // well-formed multi-byte text where the peer may put text: UTF-8 / double-byte snippets (digits followed
                     // by a multi-byte character, marker + lead byte, ...) written over every offset after the header
                     const SNIPPETS: [&[u8]; 10] = [
@@ -407,7 +423,7 @@ pub fn run(ctx: &mut Ctx) -> (&'static str, String, bool) {
     ctx.assume("uncompressed announced lengths >= 4 that are not a multiple of 4 may be treated as a frame of that length or refused as a framing error: the statement does not choose");
     (
         "exploration",
-        "every (size,type) header pair x buffer lengths around the announced length x both modes; valid frames of every kind (reference-built and encoder-built) with every byte position set to every value, every truncation, extensions, bit flips and multi-byte text snippets (UTF-8, double-byte, markers) written over every offset; random and plausible-header random buffers; each decoded twice with different trailing bytes; distinct = distinct (mode, buffer)".into(),
+        "every (size,type) header pair x buffer lengths around the announced length x both modes; valid frames of every kind (reference-built and encoder-built) with every byte position set to every value, every truncation, extensions, bit flips, repeated elements (blocks of 4-40 bytes copied over their neighbours) and multi-byte text snippets (UTF-8, double-byte, markers) written over every offset; random and plausible-header random buffers; each decoded twice with different trailing bytes; distinct = distinct (mode, buffer)".into(),
         false,
     )
 }
